@@ -27,6 +27,7 @@ type c11TellCase struct {
 	isTrz                  bool
 	errType                string
 	trace, sad, flag, made bool
+	tunnel                 int // 0 none, 1 accepted but the ACT not read (the window), 2 connected
 	res                    string
 	lines                  []string
 }
@@ -44,13 +45,15 @@ func genErrTell(c *ctx) {
 	var cases []*c11TellCase
 	types := []string{"", "fail", "FAIL", "EXIT", "panic", "colon", "SUCC"}
 	for _, side := range []string{"client", "server"} {
-		for _, flag := range []bool{false, true} {
-			for _, made := range []bool{false, true} {
-				cases = append(cases, &c11TellCase{side: side, flag: flag, made: made})
-				for _, ty := range types {
-					for _, tr := range []bool{false, true} {
-						for _, sad := range []bool{false, true} {
-							cases = append(cases, &c11TellCase{side: side, isTrz: true, errType: ty, trace: tr, sad: sad, flag: flag, made: made})
+		for _, tunnel := range []int{0, 1, 2} {
+			for _, flag := range []bool{false, true} {
+				for _, made := range []bool{false, true} {
+					cases = append(cases, &c11TellCase{side: side, flag: flag, made: made, tunnel: tunnel})
+					for _, ty := range types {
+						for _, tr := range []bool{false, true} {
+							for _, sad := range []bool{false, true} {
+								cases = append(cases, &c11TellCase{side: side, isTrz: true, errType: ty, trace: tr, sad: sad, flag: flag, made: made, tunnel: tunnel})
+							}
 						}
 					}
 				}
@@ -71,7 +74,7 @@ func genErrTell(c *ctx) {
 				os.MkdirAll(filepath.Dir(created), 0755)
 				os.WriteFile(created, []byte("x"), 0644)
 			}
-			lines, exited := trzsz.VerifErrTell(k.side, k.isTrz, k.errType, k.trace, k.sad, k.flag, created)
+			lines, exited := trzsz.VerifErrTellTunnel(k.side, k.isTrz, k.errType, k.trace, k.sad, k.flag, created, k.tunnel)
 			deleted := false
 			if created != "" {
 				if _, err := os.Stat(created); os.IsNotExist(err) {
@@ -92,18 +95,35 @@ func genErrTell(c *ctx) {
 		if ty == "" {
 			ty = "-"
 		}
-		c.emit(true, "errtell", k.res, k.side, c11b(k.isTrz), ty, c11b(k.trace), c11b(k.sad), c11b(k.flag), c11b(k.made))
+		c.emit(true, "errtell", k.res, k.side, c11b(k.isTrz), ty, c11b(k.trace), c11b(k.sad), c11b(k.flag), c11b(k.made), fmt.Sprint(k.tunnel))
 		victim := k.isTrz && (k.errType == "fail" || k.errType == "FAIL" || k.errType == "EXIT")
-		c.count(fmt.Sprintf("%s:victim=%v:lines=%d", k.side, victim, len(k.lines)))
-		class := fmt.Sprintf("%s:trz=%v:type=%q:trace=%v:sad=%v:flag=%v:created=%v", k.side, k.isTrz, k.errType, k.trace, k.sad, k.flag, k.made)
+		window := k.side == "server" && k.tunnel == 1
+		c.count(fmt.Sprintf("%s:victim=%v:window=%v:lines=%d", k.side, victim, window, len(k.lines)))
+		class := fmt.Sprintf("%s:trz=%v:type=%q:trace=%v:sad=%v:flag=%v:created=%v:tunnel=%d", k.side, k.isTrz, k.errType, k.trace, k.sad, k.flag, k.made, k.tunnel)
+		var inband, onTunnel []string
+		for _, l := range k.lines {
+			if strings.HasPrefix(l, "tunnel:") {
+				onTunnel = append(onTunnel, strings.TrimPrefix(l, "tunnel:"))
+			} else {
+				inband = append(inband, l)
+			}
+		}
+		wantTunnel := 0
+		if window {
+			wantTunnel = 1 // a client that greeted on the tunnel may listen there only
+		}
+		isFail := func(l string) bool { return strings.HasPrefix(l, "fail") || strings.HasPrefix(l, "FAIL") }
 		switch {
 		case victim && len(k.lines) > 0:
 			c.violate("errtell:answers-a-fail-line:"+k.side, "a side that received the peer's exit / fail line sent a fail line back", class+" wrote "+strings.Join(k.lines, ","))
-		case !victim && len(k.lines) != 1:
-			c.violate("errtell:silent:"+k.side, "a side that can still talk did not tell its peer why the transfer failed (exactly one fail / FAIL line expected)",
+		case !victim && len(inband) != 1:
+			c.violate("errtell:silent:"+k.side, "a side that can still talk did not tell its peer why the transfer failed (exactly one fail / FAIL line expected on the writer in force)",
 				class+" wrote ["+strings.Join(k.lines, ",")+"]")
-		case !victim && !(strings.HasPrefix(k.lines[0], "fail") || strings.HasPrefix(k.lines[0], "FAIL")):
-			c.violate("errtell:order:"+k.side, "the fail line was written before cleanInput or after the terminal was reset, or is not a fail line", class+" wrote "+k.lines[0])
+		case !victim && len(onTunnel) != wantTunnel:
+			c.violate("errtell:tunnel-window:"+k.side, "between the tunnel greeting and the ACT the server must tell the client on the accepted tunnel connection as well, exactly once, and never outside that window",
+				class+" wrote ["+strings.Join(k.lines, ",")+"]")
+		case !victim && !(isFail(inband[0]) && (wantTunnel == 0 || onTunnel[0] == inband[0])):
+			c.violate("errtell:order:"+k.side, "the fail line was written before cleanInput or after the terminal was reset, is not a fail line, or differs between the two writers", class+" wrote "+strings.Join(k.lines, ","))
 		}
 	}
 }
